@@ -138,6 +138,60 @@ def run_case(case, t=None, frame=0):
     return out
 
 
+def run_apicall(case):
+    """one whole call on a multi-frame trajectory: every frame of compute_neighbors, or compute_neighborlist with an
+    explicit frame argument (negative / out of range included); index arguments in several container types.
+    -> {"boxes": per frame exact cell in ONE unit 2^-K | None, "K", "res": per-frame lists | rows, "err"}"""
+    out = {"boxes": None, "K": 10, "res": None, "err": None}
+    try:
+        frames = case["frames"]
+        xyz = np.array(frames, dtype=np.float64).reshape(len(frames), -1, 3) / G
+        n = xyz.shape[1]
+        top = md.Topology()
+        ch = top.add_chain()
+        res = top.add_residue("X", ch)
+        for _ in range(n):
+            top.add_atom("C", md.element.carbon, res)
+        t = md.Trajectory(xyz.astype(np.float32), top)
+        if case.get("cells"):
+            t.unitcell_lengths = np.array([[v / G for v in c["lengths"]] for c in case["cells"]], dtype=np.float32)
+            t.unitcell_angles = np.array([c["angles"] for c in case["cells"]], dtype=np.float32)
+            bk = [exact_box(t, f) for f in range(t.n_frames)]
+            K = max(k for _b, k in bk)
+            out["boxes"] = [[[v << (K - k) for v in row] for row in b] for b, k in bk]
+            out["K"] = K
+
+        def conv(idx):
+            if idx is None:
+                return None
+            ty = case.get("idx_type", "int64")
+            if ty == "list":
+                return list(idx)
+            if ty == "tuple":
+                return tuple(idx)
+            return np.array(idx, dtype={"int32": np.int32, "int64": np.int64}[ty])
+        c = case["c"] / G
+        periodic = bool(case.get("periodic", True))
+        if case["api"] == "nb":
+            kw = {} if case.get("hay_omitted") else {"haystack_indices": conv(case.get("hay"))}
+            if case.get("periodic_omitted"):
+                r = md.compute_neighbors(t, c, conv(case["query"]), **kw)
+            else:
+                r = md.compute_neighbors(t, c, conv(case["query"]), periodic=periodic, **kw)
+            out["res"] = [[int(x) for x in a] for a in r]
+            out["dtypes"] = sorted({str(a.dtype) for a in r})
+        else:
+            if case.get("frame_omitted"):
+                r = md.compute_neighborlist(t, c, periodic=periodic)
+            else:
+                r = md.compute_neighborlist(t, c, frame=case["frame"], periodic=periodic)
+            out["res"] = [[int(x) for x in a] for a in r]
+    except Exception as e:  # noqa: BLE001
+        out["err"] = type(e).__name__
+        out["msg"] = str(e)[:200]
+    return out
+
+
 def main():
     import resource
     try:  # a runaway allocation inside a kernel must fail fast, not exhaust the machine
@@ -147,7 +201,9 @@ def main():
     payload = json.load(sys.stdin)
     outs = []
     for c in payload["cases"]:
-        if c.get("seq") is None:
+        if c.get("apicall"):
+            outs.append(run_apicall(c))
+        elif c.get("seq") is None:
             outs.append(run_case(c))
         elif c.get("mode") == "traj":      # ONE trajectory with a different cell in every frame
             t = make_traj_multi(c["seq"])
